@@ -159,9 +159,94 @@ def wrapper_stream():
                                                     '5': TRY_MID, '6': TRY_BLOCKS, '7.1.2': TRY_TAIL, '9': TRY_END})})
 
 
+SEEK_MEMBERS = '''
+    spec fn seek_wf(&self) -> bool;
+    // the reported byte position and the (core state, buffered bytes) pair
+    spec fn spos(&self) -> int;
+    spec fn sstate(&self) -> (KAbs, Seq<u8>);
+    // the keystream of this instance: step function, generator state at offset 0, counter modulus, block size;
+    // the pair this instance has at byte offset p is wseek_state(sk, sorigin, smod, sbs, p)
+    spec fn sk(&self) -> KStep;
+    spec fn sorigin(&self) -> KAbs;
+    spec fn smod(&self) -> int;
+    spec fn sbs(&self) -> int;
+    // the hypotheses of the seek lemmas (spec/wrapper.rs) hold, and the reported position is the function
+    // spos_of of the state: so wseek_is_run / wseek_keystream / wseek_pos / wpos_after_run apply to this instance
+    proof fn lemma_seek_model(&self)
+        requires self.seek_wf()
+        ensures
+            step_law(self.sk(), self.smod()), self.smod() > 0, 0 <= self.sorigin().pos < self.smod(), self.sbs() >= 1,
+            forall |a: KAbs| (#[trigger] self.sk()(a)).1.len() == self.sbs(),
+            self.spos() == spos_of(self.sstate().0, self.sorigin(), self.smod(), self.sbs(), self.sstate().1.len() as int);
+'''
+P10 = ('C10',)
+
+
+def seek_trait():
+    return Sel('trait StreamCipherSeek', members=SEEK_MEMBERS, fns={
+        'try_current_pos': FnC(ret='r', props=P10, requires=['self.seek_wf()'], ensures=[
+            ('exact_or_error', P10, 'r is Ok ==> r->Ok_0.sn_val() == self.spos()')]),
+        'try_seek': FnC(ret='r', props=P10, requires=['old(self).seek_wf()', 'pos.sn_val() >= 0'], ensures=[
+            ('wf_kept', P10, 'final(self).seek_wf()'),
+            ('stream_kept', P10, 'final(self).sk() == old(self).sk() && final(self).sorigin() == old(self).sorigin() && final(self).smod() == old(self).smod() && final(self).sbs() == old(self).sbs()'),
+            ('seeked', P10, 'r is Ok ==> final(self).sstate() == wseek_state(old(self).sk(), old(self).sorigin(), old(self).smod(), old(self).sbs(), pos.sn_val())'),
+            ('err_untouched', P10, 'r is Err ==> final(self).sstate() == old(self).sstate()')]),
+    }, drop_fns=['current_pos', 'seek'])
+
+
+def wrapper_seek():
+    return Sel('impl StreamCipherSeek for StreamCipherCoreWrapper', members='''
+    open spec fn seek_wf(&self) -> bool { self.wf() }
+    open spec fn spos(&self) -> int { self.core.block_pos() * Self::bsz() - (Self::bsz() - self.buffer@[0]) }
+    open spec fn sstate(&self) -> (KAbs, Seq<u8>) { (self.core.kabs(), self.buffered()) }
+    open spec fn sk(&self) -> KStep { self.core.kstep() }
+    open spec fn sorigin(&self) -> KAbs { self.core.korigin() }
+    open spec fn smod(&self) -> int { T::pos_modulus() }
+    open spec fn sbs(&self) -> int { Self::bsz() }
+    proof fn lemma_seek_model(&self) {
+        broadcast use Array::axiom_len;
+        T::BlockSize::block_size_bounds();
+        self.core.lemma_pos_coherent();
+        self.core.lemma_step_law();
+        let o = self.core.korigin().pos; let b = self.core.block_pos(); let m = T::pos_modulus();
+        mod_diff(o, b, m);
+        assert(self.buffered().len() == Self::bsz() - self.buffer@[0]);
+    }
+''', fns={
+        'try_current_pos': FnC(props=P10, inherits=True, stmts={'0': BS, '1': '''
+        proof {
+            assert forall |c: T::Counter| #[trigger] T::counter_val(c) == <T::Counter as StreamCipherCounter>::cval(c) by { T::lemma_counter_val(c); }
+        }
+'''}),
+        'try_seek': FnC(props=P10, inherits=True, stmts={'0': BS + '''
+        let ghost k0 = self.core.kstep();
+        let ghost o0 = self.core.korigin();
+        let ghost p = new_pos.sn_val();
+        let ghost bs = T::BlockSize::USIZE as int;
+''', '1': '''
+        proof { vstd::arithmetic::div_mod::lemma_mod_bound(p, bs); }
+''', '4': '''
+        let ghost a = self.core.kabs();
+        proof {
+            self.core.lemma_pos_coherent();
+            T::lemma_counter_val(block_pos);
+            assert(a == (KAbs { base: o0.base, pos: (o0.pos + p / bs) % T::pos_modulus() }));
+        }
+''', '6': '''
+        proof {
+            if byte_pos != 0 {
+                assert(self.buffered() =~= k0(a).1.skip(byte_pos as int));
+            } else {
+                assert(self.buffered() =~= Seq::<u8>::empty());
+            }
+        }
+'''}),
+    })
+
+
 def mods():
     return [
-        Mod('dep_streamapi', 'dep:cipher/src/stream.rs', items=[stream_trait()], export=True),
+        Mod('dep_streamapi', 'dep:cipher/src/stream.rs', items=[stream_trait(), seek_trait()], export=True),
         Mod('dep_wrapper', 'dep:cipher/src/stream/wrapper.rs', items=[
-            Sel('struct StreamCipherCoreWrapper'), wrapper_inherent(), wrapper_stream()], export=True),
+            Sel('struct StreamCipherCoreWrapper'), wrapper_inherent(), wrapper_stream(), wrapper_seek()], export=True),
     ]
